@@ -234,11 +234,11 @@ func mkDLN(pp *keygen.LocalPreParams, other *keygen.LocalPreParams, second bool)
 		},
 	}
 	in.altStmts = map[string][]*big.Int{
-		"h1<->h2":      {h2, h1, N},
-		"other h2":     {h1, new(big.Int).Exp(h2, big2, N), N},
-		"other h1":     {new(big.Int).Exp(h1, big2, N), h2, N},
+		"h1<->h2":       {h2, h1, N},
+		"other h2":      {h1, new(big.Int).Exp(h2, big2, N), N},
+		"other h1":      {new(big.Int).Exp(h1, big2, N), h2, N},
 		"other modulus": {h1, h2, other.NTildei},
-		"other set":    {other.H1i, other.H2i, other.NTildei},
+		"other set":     {other.H1i, other.H2i, other.NTildei},
 	}
 	return in
 }
@@ -359,10 +359,10 @@ func mkFac(curve string, sk *paillier.PrivateKey, ver *keygen.LocalPreParams, ot
 		},
 	}
 	in.altStmts = map[string][]*big.Int{
-		"other N0":         {other.PaillierSK.N, NCap, s, t},
-		"s<->t":            {sk.N, NCap, t, s},
-		"other verifier":   {sk.N, other.NTildei, other.H1i, other.H2i},
-		"other NCap only":  {sk.N, other.NTildei, s, t},
+		"other N0":        {other.PaillierSK.N, NCap, s, t},
+		"s<->t":           {sk.N, NCap, t, s},
+		"other verifier":  {sk.N, other.NTildei, other.H1i, other.H2i},
+		"other NCap only": {sk.N, other.NTildei, s, t},
 	}
 	return in, nil
 }
@@ -420,10 +420,10 @@ func mkAlice(curve string, sk *paillier.PrivateKey, ver *keygen.LocalPreParams, 
 		"h1<->h2":                   {pk.N, ver.NTildei, ver.H2i, ver.H1i, c},
 		"other verifier":            {pk.N, other.NTildei, other.H1i, other.H2i, c},
 		// ciphertexts that are not units modulo N^2 (the prover knows its own factorisation)
-		"c = multiple of P":   {pk.N, ver.NTildei, ver.H1i, ver.H2i, new(big.Int).Mul(sk.P, big.NewInt(12345))},
-		"c = N":               {pk.N, ver.NTildei, ver.H1i, ver.H2i, new(big.Int).Set(pk.N)},
-		"c = 0":               {pk.N, ver.NTildei, ver.H1i, ver.H2i, big.NewInt(0)},
-		"c = N^2":             {pk.N, ver.NTildei, ver.H1i, ver.H2i, pk.NSquare()},
+		"c = multiple of P": {pk.N, ver.NTildei, ver.H1i, ver.H2i, new(big.Int).Mul(sk.P, big.NewInt(12345))},
+		"c = N":             {pk.N, ver.NTildei, ver.H1i, ver.H2i, new(big.Int).Set(pk.N)},
+		"c = 0":             {pk.N, ver.NTildei, ver.H1i, ver.H2i, big.NewInt(0)},
+		"c = N^2":           {pk.N, ver.NTildei, ver.H1i, ver.H2i, pk.NSquare()},
 	}
 	return in, nil
 }
